@@ -138,7 +138,7 @@ func c20Tess(rec *c20Rec, projName string, scale int, tol float64, a, b s2.Point
 			endd = math.Max(float64(proj.Unproject(verts[0]).Distance(a)), float64(proj.Unproject(verts[len(verts)-1]).Distance(b)))
 		}
 		rec.add(sub, projName+"/projected", fmt.Sprintf("%s scale %v tolerance %g: %d vertices, max distance %g (%.4f x tolerance) at %s", desc, c20Scales[scale], tol, len(verts), maxd, maxd/eff, worst),
-			map[string]any{"ev": "tess", "mode": "projected", "maxd": c20K(maxd), "thr": c20K(c20Thr(eff)), "endd": c20K(endd), "ethr": c20K(1e-13),
+			map[string]any{"ev": "tess", "mode": "projected", "maxd": c20K(maxd), "thr": c20K(c20Thr(eff)), "thr2": c20K(c20Thr(1.2 * eff)), "endd": c20K(endd), "ethr": c20K(1e-13),
 				"maxdx": c20K(maxdx), "halfwrap": c20K(wrap / 2 * (1 + 1e-12)), "nv": len(verts), "cls": cls})
 		rec.o.CountN("tessellated_vertices", len(verts))
 	}
@@ -175,7 +175,7 @@ func c20Tess(rec *c20Rec, projName string, scale int, tol float64, a, b s2.Point
 			endd = math.Max(float64(chain[0].Distance(proj.Unproject(pa))), float64(chain[len(chain)-1].Distance(proj.Unproject(pb))))
 		}
 		rec.add(sub, projName+"/unprojected", fmt.Sprintf("%s scale %v tolerance %g planar %v -> %v: %d vertices, max distance %g (%.4f x tolerance) at %s", desc, c20Scales[scale], tol, pa, pb, len(chain), maxd, maxd/eff, worst),
-			map[string]any{"ev": "tess", "mode": "unprojected", "maxd": c20K(maxd), "thr": c20K(c20Thr(eff)), "endd": c20K(endd), "ethr": c20K(1e-13),
+			map[string]any{"ev": "tess", "mode": "unprojected", "maxd": c20K(maxd), "thr": c20K(c20Thr(eff)), "thr2": c20K(c20Thr(1.2 * eff)), "endd": c20K(endd), "ethr": c20K(1e-13),
 				"maxdx": c20K(0), "halfwrap": c20K(1), "nv": len(chain), "cls": cls})
 		rec.o.CountN("tessellated_vertices", len(chain))
 	}
